@@ -145,7 +145,7 @@ func fieldRunner[S any](a *fapi[S]) runner {
 				want := new(big.Int).Mod(raw, a.mod)
 				canon := len(c.b) == a.L && raw.Cmp(a.mod) < 0 // the encoder's output for that value
 				ev := map[string]any{"a": "dec", "curve": a.name, "api": d.api, "fmt": d.rule, "cls": c.cls, "det": c.det,
-					"promise": "field", "len": len(c.b), "L": d.L, "fl": map[string]int{"none": 0}, "idform": "no", "red": raw.Cmp(a.mod) < 0,
+					"promise": "field", "len": len(c.b), "L": d.L, "idenc": false, "fl": map[string]int{"none": 0}, "idform": "no", "red": raw.Cmp(a.mod) < 0,
 					"onc": true, "insub": true, "small": false, "canon": canon, "exps": []int{tokV(want)}}
 				if len(c.b) <= 100 {
 					ev["hex"] = fmt.Sprintf("%x", c.b)
@@ -483,7 +483,7 @@ func gtRunner() runner {
 		for _, d := range decs {
 			for _, c := range cs {
 				ev := map[string]any{"a": "dec", "curve": "bls-gt", "api": d.api, "fmt": "gt", "cls": c.cls, "det": c.det, "promise": "prime",
-					"len": len(c.b), "L": L, "fl": map[string]int{"none": 0}, "idform": "no", "red": true, "onc": false, "insub": false, "small": false,
+					"len": len(c.b), "L": L, "idenc": false, "fl": map[string]int{"none": 0}, "idform": "no", "red": true, "onc": false, "insub": false, "small": false,
 					"canon": false, "exps": []int{}}
 				if len(c.b) == L {
 					a, red := parse(c.b)
